@@ -28,18 +28,18 @@ type HeapLayer struct {
 	arr     *Term
 	w       int
 	depth   int
-	seq     int // lHavocAbove: region sequence number at the havoc point
+	seq     int    // lHavocAbove: region sequence number at the havoc point
 	tid     uint32 // lHavocAbove: term-id watermark at the havoc point
 }
 
 type Region struct {
-	base  *Term
-	size  *Term
-	fresh bool // allocated during this execution (disjoint from everything registered earlier)
-	seq   int
-	global bool      // package-level variable or string constant (distinct objects)
-	T     types.Type // allocation type of a local (Alloc); nil otherwise
-	n     uint64
+	base   *Term
+	size   *Term
+	fresh  bool // allocated during this execution (disjoint from everything registered earlier)
+	seq    int
+	global bool       // package-level variable or string constant (distinct objects)
+	T      types.Type // allocation type of a local (Alloc); nil otherwise
+	n      uint64
 }
 
 // addrRoot finds the base symbol of an address in base+offset normal form.
